@@ -107,6 +107,34 @@ def fixed_stream():
     return out
 
 
+def special_case_chars():
+    """Characters outside the ASCII model whose case mapping is not a length-preserving involution:
+    upper()/lower() lengthens the text (ß, ﬁ, ŉ, ǰ, ΐ ...) or the upper/lower round trip is not the identity
+    (ı, İ, ſ, Kelvin K, Angstrom Å, final sigma ...)."""
+    out = []
+    for i in range(0x80, 0x30000):
+        if 0xD800 <= i <= 0xDFFF:
+            continue
+        c = chr(i)
+        u, l = c.upper(), c.lower()
+        if len(u) > 1 or len(l) > 1 or u.lower() != l or l.upper() != u or u.upper() != u:
+            out.append(c)
+    return out
+
+
+def unicode_stream():
+    """Deterministic non-ASCII family: run through the direct oracle and the CLI loop only (the Coq model is
+    ASCII for case mapping, so these are not compared with it; counted separately). The needle covers (nearly)
+    the whole description, which is where a length- or case-sensitive shortcut in the matcher shows."""
+    out = ['Gießerei', 'gießerei', 'Straße', 'STRASSE ß', 'Maße #12', 'Gießerei 12345 Köln DE', 'SQ *Gießerei', 'aßb cßd eßf gßh',
+           'ﬁsh', 'ﬂower shop', 'Oﬃce', 'Caﬀe Nero', 'ŉgo', 'ǰa', 'ΐota', 'ılık', 'ILIK ı', 'İstanbul', 'iİ', 'Miſter', 'Kelvin \u212a',
+           'σς ΣΑΣ', 'straße café', 'ÇA VA', 'Ünal Döner', 'ﬁﬂﬀ', 'ß 1234', 'ß CA', 'ß 98101', 'tst* ﬅop', 'Åre \u212b', 'ǅ ǈ ǋ',
+           'e\u0301 cafe\u0301', '\u00a0Nbsp\u00a0shop', 'A\u2003B', 'X \u0661\u0662\u0663\u0664\u0665', 'Ⅻ ⅻ', 'ⓐⓑ Ⓒ']
+    for c in special_case_chars():
+        out += [c, 'a' + c, c + 'b', c + c, 'Cafe ' + c + 'x', c + ' 12345 WA']
+    return out
+
+
 def small_exhaustive(maxlen):
     out = []
     for n in range(1, maxlen + 1):
@@ -127,6 +155,10 @@ def gen_cases(seed, n, maxlen):
             discarded += 1
             continue
         cases.append({'d': d, 'neg': (len(cases) % 7 == 3), 'dup': ['same', 'upper', 'lower', 'swap'][len(cases) % 4]})
+    for d in unicode_stream():
+        if d not in seen:
+            seen.add(d)
+            cases.append({'d': d, 'neg': False, 'dup': ['same', 'upper', 'lower', 'swap'][len(cases) % 4], 'u': True})
     return cases, discarded
 
 
@@ -187,7 +219,7 @@ def shrink(d, sig, neg=False, budget=120, dup='same'):
     d0 = d
     def fails(x):
         nonlocal budget
-        if budget <= 0 or not in_fragment(x) or (d0.strip() and not x.strip()):     # keep a visible description
+        if budget <= 0 or (in_fragment(d0) and not in_fragment(x)) or (d0.strip() and not x.strip()):     # keep a visible description
             return False
         budget -= 1
         return sig_of(x, neg, dup)[0] == sig
@@ -247,7 +279,7 @@ def obs_code(r, which='raw'):
 def model_check(cases, results, variant, name='C19'):
     rows, idx = [], []
     for i, (c, r) in enumerate(zip(cases, results)):
-        if 'error' in r:
+        if 'error' in r or c.get('u'):
             continue
         rows.append(f"({coq_str(c['d'])}, {'true' if c.get('neg') else 'false'}, ({coq_str(r['pattern'])}, {coq_str(r['name'])}, "
                     f"{coq_str(r['needle'])}, {coq_str(r['rule'])}), {obs_code(r)}, "
@@ -281,6 +313,7 @@ merchants_file: config/merchants.rules
 BASE_RULES = '[Netflix]\nmatch: contains("NETFLIX")\ncategory: Fun\nsubcategory: Streaming\n'
 
 CLI_BUDGETS = [
+    ['Gießerei', 'Oﬃce Depot', 'ŉgo', 'İstanbul Kebap', 'ılık', 'Miſter \u212a', 'ß', 'NETFLIX'],       # case mapping changes length / is no involution
     ['NETFLIX', 'COSTCO', 'Shell', 'TARGET 12345 SEATTLE WA', 'SQ *BAKERY'],                        # single plain words only
     ['STARBUCKS STORE 12345 SEATTLE WA', 'Acme Foo', 'UBER EATS', 'TST* PIZZA PLACE', 'NETFLIX'],     # all multi-word
     ['ACME.COM', 'AMZN Mktp US*2K4', 'SAY "HI" CAFE', "JOE'S DINER #12", 'A\\B', 'Shell', 'DUNKIN"DONUTS', 'NETFLIX'],
@@ -554,12 +587,18 @@ def main(tier):
     ks = list(T)
     timings = {ks[i]: round(T[ks[i]] - T[ks[i - 1]], 1) for i in range(1, len(ks))}
     # evidence
-    multi = [c['d'] for c, r in zip(cases, results) if 'pattern' in r and '\\s*' in r['pattern']]
-    esc = [c['d'] for c, r in zip(cases, results) if 'pattern' in r and re.search(r'\\[^s]', r['pattern'])]
-    quoted = [c['d'] for c, r in zip(cases, results) if 'needle' in r and ('"' in r['needle'] or '\\' in r['needle'])]
-    plain = [c['d'] for c, r in zip(cases, results) if 'pattern' in r and '\\' not in r['pattern'] and r['pattern']]
+    fcases = [(c, r) for c, r in zip(cases, results) if not c.get('u')]
+    ucases = [(c, r) for c, r in zip(cases, results) if c.get('u')]
+    uhist = {}
+    for c, r in ucases:
+        k = signature(c, r) or 'holds'
+        uhist[k] = uhist.get(k, 0) + 1
+    multi = [c['d'] for c, r in fcases if 'pattern' in r and '\\s*' in r['pattern']]
+    esc = [c['d'] for c, r in fcases if 'pattern' in r and re.search(r'\\[^s]', r['pattern'])]
+    quoted = [c['d'] for c, r in fcases if 'needle' in r and ('"' in r['needle'] or '\\' in r['needle'])]
+    plain = [c['d'] for c, r in fcases if 'pattern' in r and '\\' not in r['pattern'] and r['pattern']]
     hist = {}
-    for c, r in zip(cases, results):
+    for c, r in fcases:
         k = signature(c, r) or 'holds'
         hist[k] = hist.get(k, 0) + 1
     run.cov.update({
@@ -575,6 +614,8 @@ def main(tier):
         'suggestions_multiword': len(multi), 'suggestions_with_escaped_metachar': len(esc), 'suggestions_needing_quoting': len(quoted),
         'suggestions_single_plain_word': len(plain), 'discarded_outside_ascii_fragment': discarded,
         'impl_oracle_cases': len(cases), 'model_vs_impl_cases_in_coq': len(model_idx),
+        'unicode_family_cases_oracle_only': len(ucases), 'unicode_family_histogram': uhist,
+        'unicode_family_needle_longer_than_description': sum(1 for c, r in ucases if 'needle' in r and len(r['needle']) > len(c['d'])),
         'cli_loops': [{k: o.get(k) for k in ('descriptions', 'preexisting_same_named_rules', 'unknown_before', 'unknown_after', 'still_unknown', 'error')} for o in loops],
         'cli_loops_with_preexisting_same_named_rules': sum(1 for o in loops if o.get('preexisting_same_named_rules')),
         'reported': [{'signature': s, 'shrunk': d, 'new': new} for s, d, new in reported],
